@@ -2,7 +2,7 @@
 # usage: tools/try_mutant.sh <patch.diff> <prop> [<prop>...]   — applies the source part of the patch to /repo,
 # runs the quick checks of the given properties, and restores /repo.
 set -u
-PATCH=$1; shift
+PATCH=$(realpath "$1"); shift
 cd /repo || exit 2
 if ! git diff --quiet; then echo "/repo has uncommitted changes"; exit 2; fi
 # keep only hunks of non-test source files
